@@ -147,7 +147,7 @@ theorem step_register_eq {s : State} {c : Cid} {x : Conn} (hx : s.conns c = some
 theorem actorExit_conns_self {t : State} {c : Cid} {z : Conn} (hz : t.conns c = some z) :
     ∃ w, (step t (.actorExit c)).conns c = some w ∧
       (z.phase = .closed ∨ z.phase = .registered → w.phase = .closed) := by
-  simp only [step, hz]
+  simp only [step, exitActor, hz]
   by_cases h : z.phase = .registered
   · exact ⟨{ z with phase := .closed }, by simp [h], fun _ => rfl⟩
   · refine ⟨z, by simp [h, hz], fun hh => ?_⟩
@@ -282,6 +282,88 @@ theorem Inv.advance {s : State} (inv : Inv s) (c : Cid) (frm to : Phase)
         simp [setConn, this, inv.fresh k hk]
     · exact inv
 
+/-- The invariant only reads `conns`, `entries` and `nextCid`. -/
+theorem Inv.congr {s s' : State} (inv : Inv s) (hc : s'.conns = s.conns) (he : s'.entries = s.entries)
+    (hn : s'.nextCid = s.nextCid) : Inv s' :=
+  ⟨by rw [hc, he]; exact inv.reg_of_mem, by rw [hc, he]; exact inv.mem_of_reg,
+   by rw [he]; exact inv.nodup, by rw [hc, hn]; exact inv.fresh⟩
+
+theorem Inv.exitActor {s : State} (inv : Inv s) (c : Cid) : Inv (exitActor s c) := by
+  unfold C08.exitActor
+  split
+  · exact inv
+  · next x hx =>
+    split
+    · next hp =>
+      have hnd := inv.nodup x.owner
+      refine ⟨?_, ?_, ?_, ?_⟩
+      · intro id k hk
+        by_cases hid : id = x.owner
+        · subst hid
+          simp only [setEntry, if_true] at hk
+          obtain ⟨hk1, hk2⟩ := (mem_removeConn_of_nodup hnd).mp hk
+          obtain ⟨y, hy, hyp, hyo⟩ := inv.reg_of_mem _ k hk1
+          exact ⟨y, by simp [setEntry, setConn, hk2, hy], hyp, hyo⟩
+        · simp only [setEntry, hid, if_false] at hk
+          obtain ⟨y, hy, hyp, hyo⟩ := inv.reg_of_mem _ k hk
+          have hkc : k ≠ c := by
+            rintro rfl
+            rw [hx] at hy; cases hy
+            exact hid hyo.symm
+          exact ⟨y, by simp [setEntry, setConn, hkc, hy], hyp, hyo⟩
+      · intro k y hy hyp
+        by_cases hkc : k = c
+        · subst hkc
+          simp [setEntry, setConn] at hy
+          subst hy
+          cases hyp
+        · simp [setEntry, setConn, hkc] at hy
+          have hm := inv.mem_of_reg k y hy hyp
+          by_cases hid : y.owner = x.owner
+          · rw [setEntry_entries, if_pos hid]
+            exact (mem_removeConn_of_nodup hnd).mpr ⟨hid ▸ hm, hkc⟩
+          · rw [setEntry_entries, if_neg hid]
+            exact hm
+      · intro id
+        by_cases hid : id = x.owner
+        · subst hid
+          simp only [setEntry, if_true]
+          exact nodup_removeConn hnd
+        · simp only [setEntry, hid, if_false]
+          exact inv.nodup id
+      · intro k hk
+        have : k ≠ c := by
+          rintro rfl
+          have : s.conns k = none := inv.fresh k hk
+          rw [this] at hx; cases hx
+        have h2 : s.conns k = none := inv.fresh k hk
+        simp [setEntry, setConn, this, h2]
+    · exact inv
+
+
+/-- A loop iteration either is the actor's exit, or leaves records, registry and counter alone. -/
+theorem actorStepWith_cases (first : Bool) (s : State) (c : Cid) :
+    actorStepWith first s c = exitActor s c ∨
+      ((actorStepWith first s c).conns = s.conns ∧ (actorStepWith first s c).entries = s.entries ∧
+        (actorStepWith first s c).nextCid = s.nextCid ∧ (actorStepWith first s c).results = s.results) := by
+  unfold actorStepWith
+  split
+  · exact Or.inr ⟨rfl, rfl, rfl, rfl⟩
+  · split
+    · split
+      · exact Or.inl rfl
+      · split
+        · exact Or.inr ⟨rfl, rfl, rfl, rfl⟩
+        · split
+          · exact Or.inl rfl
+          · exact Or.inr ⟨rfl, rfl, rfl, rfl⟩
+    · exact Or.inr ⟨rfl, rfl, rfl, rfl⟩
+
+theorem Inv.actorStep {s : State} (inv : Inv s) (c : Cid) : Inv (actorStep s c) := by
+  rcases actorStepWith_cases cancelArmFirst s c with h | ⟨h1, h2, h3, _⟩
+  · rw [C08.actorStep, h]; exact inv.exitActor c
+  · exact inv.congr h1 h2 h3
+
 theorem Inv.step {s : State} (inv : Inv s) (op : Op) : Inv (step s op) := by
   cases op with
   | request id =>
@@ -364,57 +446,9 @@ theorem Inv.step {s : State} (inv : Inv s) (op : Op) : Inv (step s op) := by
           have h2 : s.conns k = none := inv.fresh k hk
           simp [setEntry, setConn, this, h2]
       · exact inv
-  | actorExit c =>
-    simp only [C08.step]
-    split
-    · exact inv
-    · next x hx =>
-      split
-      · next hp =>
-        have hnd := inv.nodup x.owner
-        refine ⟨?_, ?_, ?_, ?_⟩
-        · intro id k hk
-          by_cases hid : id = x.owner
-          · subst hid
-            simp only [setEntry, if_true] at hk
-            obtain ⟨hk1, hk2⟩ := (mem_removeConn_of_nodup hnd).mp hk
-            obtain ⟨y, hy, hyp, hyo⟩ := inv.reg_of_mem _ k hk1
-            exact ⟨y, by simp [setEntry, setConn, hk2, hy], hyp, hyo⟩
-          · simp only [setEntry, hid, if_false] at hk
-            obtain ⟨y, hy, hyp, hyo⟩ := inv.reg_of_mem _ k hk
-            have hkc : k ≠ c := by
-              rintro rfl
-              rw [hx] at hy; cases hy
-              exact hid hyo.symm
-            exact ⟨y, by simp [setEntry, setConn, hkc, hy], hyp, hyo⟩
-        · intro k y hy hyp
-          by_cases hkc : k = c
-          · subst hkc
-            simp [setEntry, setConn] at hy
-            subst hy
-            cases hyp
-          · simp [setEntry, setConn, hkc] at hy
-            have hm := inv.mem_of_reg k y hy hyp
-            by_cases hid : y.owner = x.owner
-            · rw [setEntry_entries, if_pos hid]
-              exact (mem_removeConn_of_nodup hnd).mpr ⟨hid ▸ hm, hkc⟩
-            · rw [setEntry_entries, if_neg hid]
-              exact hm
-        · intro id
-          by_cases hid : id = x.owner
-          · subst hid
-            simp only [setEntry, if_true]
-            exact nodup_removeConn hnd
-          · simp only [setEntry, hid, if_false]
-            exact inv.nodup id
-        · intro k hk
-          have : k ≠ c := by
-            rintro rfl
-            have : s.conns k = none := inv.fresh k hk
-            rw [this] at hx; cases hx
-          have h2 : s.conns k = none := inv.fresh k hk
-          simp [setEntry, setConn, this, h2]
-      · exact inv
+  | actorExit c => exact inv.exitActor c
+  | arrive c => exact inv.congr rfl rfl rfl
+  | actorStep c => exact inv.actorStep c
 
 theorem Inv.runFrom {s : State} (inv : Inv s) (ops : List Op) : Inv (runFrom s ops) := by
   induction ops generalizing s with
@@ -430,5 +464,84 @@ theorem Reachable.runFrom {s : State} (h : Reachable s) (ops : List Op) : Reacha
   induction ops generalizing s with
   | nil => exact h
   | cons op ops ih => exact ih (h.step op)
+
+/-! ### the `handled` counter -/
+
+theorem cancel_handled (s : State) (c : Cid) : (cancel s c).handled = s.handled := by
+  unfold cancel; split <;> rfl
+
+theorem foldl_cancel_handled (l : List Cid) (s : State) : (l.foldl cancel s).handled = s.handled := by
+  induction l generalizing s with
+  | nil => rfl
+  | cons a l ih => rw [List.foldl_cons, ih, cancel_handled]
+
+theorem disconnect_handled (s : State) (id : Id) (sel : Option Cid) :
+    (disconnect s id sel).handled = s.handled := by
+  unfold disconnect
+  split
+  · rfl
+  · split
+    · split
+      · simp [cancel_handled]
+      · rfl
+    · simp [foldl_cancel_handled, cancel_handled]
+
+theorem exitActor_handled (s : State) (c : Cid) : (exitActor s c).handled = s.handled := by
+  unfold exitActor
+  split
+  · rfl
+  · split <;> rfl
+
+theorem advance_handled (s : State) (c : Cid) (frm to : Phase) : (advance s c frm to).handled = s.handled := by
+  unfold advance
+  split
+  · rfl
+  · split <;> rfl
+
+/-- The only step that handles an inbound frame of `k` is a loop iteration of `k`'s own actor
+that finds the connection registered and does not take the cancellation arm. -/
+theorem step_handled (s : State) (op : Op) (k : Cid) :
+    (step s op).handled k = s.handled k ∨
+      (op = .actorStep k ∧ ∃ x, s.conns k = some x ∧ x.phase = .registered ∧
+        (x.cancelled && cancelArmFirst) = false) := by
+  cases op with
+  | request id => exact Or.inl rfl
+  | allow c => exact Or.inl (by simp [C08.step, advance_handled])
+  | deny c => exact Or.inl (by simp [C08.step, advance_handled])
+  | confirm c ok => exact Or.inl (by simp [C08.step, advance_handled])
+  | register c =>
+    left
+    simp only [C08.step]
+    split
+    · rfl
+    · split <;> rfl
+  | disconnect id sel => exact Or.inl (by simp [C08.step, disconnect_handled])
+  | actorExit c => exact Or.inl (by simp [C08.step, exitActor_handled])
+  | arrive c => exact Or.inl rfl
+  | actorStep c =>
+    simp only [C08.step, C08.actorStep, actorStepWith]
+    cases hc : s.conns c with
+    | none => exact Or.inl rfl
+    | some x =>
+      simp only []
+      by_cases hp : x.phase = .registered
+      · simp only [hp, if_true]
+        by_cases hx : (x.cancelled && cancelArmFirst) = true
+        · simp only [hx, if_true]
+          exact Or.inl (by rw [exitActor_handled])
+        · have hx' : (x.cancelled && cancelArmFirst) = false := by simpa using hx
+          by_cases hkc : k = c
+          · subst hkc
+            exact Or.inr ⟨rfl, x, hc, hp, hx'⟩
+          · left
+            simp only [hx']
+            by_cases hin : 0 < s.inbox c
+            · simp [hin, hkc]
+            · simp only [hin, if_false]
+              by_cases hcn : x.cancelled = true
+              · simp [hcn, exitActor_handled]
+              · simp [hcn]
+      · simp only [hp, if_false]
+        exact Or.inl trivial
 
 end IrohModel.C08
